@@ -23,6 +23,42 @@ PAIRS = {'pubo_to_puso': ('PUBO', 'PUSO'), 'puso_to_pubo': ('PUSO', 'PUBO'),
          'qubo_to_quso': ('QUBO', 'QUSO'), 'quso_to_qubo': ('QUSO', 'QUBO')}
 
 
+def conversion_defaults(ctx, rid):
+    """The default to_* of the Conversions mix-in are f(self.to_other(*args, **kwargs)) of the matching pair and hand every
+    positional and keyword option (deg, lam, pairs) on."""
+    P, R = ctx.prog, ctx.res
+    conv = P.cls('Conversions')
+    dflt = {'to_qubo': ('quso_to_qubo', 'to_quso'), 'to_quso': ('qubo_to_quso', 'to_qubo'),
+            'to_pubo': ('puso_to_pubo', 'to_puso'), 'to_puso': ('pubo_to_puso', 'to_pubo')}
+    for m, (f, inner) in dflt.items():
+        fn = conv.methods.get(m)
+        ok = fwd = False
+        if fn is not None:
+            sn = R.self_name(fn)
+            rets = [n for n in walk_no_nested(strip_docstring(fn.node.body)) if isinstance(n, ast.Return)]
+            ok = len(rets) == 1 and isinstance(rets[0].value, ast.Call) and is_name(rets[0].value.func, f) and \
+                len(rets[0].value.args) == 1 and isinstance(rets[0].value.args[0], ast.Call) and \
+                src(rets[0].value.args[0].func) == '%s.%s' % (sn, inner)
+            if ok:
+                ic = rets[0].value.args[0]
+                va = fn.node.args.vararg.arg if fn.node.args.vararg else None
+                kw = fn.node.args.kwarg.arg if fn.node.args.kwarg else None
+                got_va = any(isinstance(a_, ast.Starred) and is_name(a_.value, va) for a_ in ic.args) if va else True
+                got_kw = any(k.arg is None and is_name(k.value, kw) for k in ic.keywords) if kw else True
+                named = [x.arg for x in fn.node.args.args[1:] + fn.node.args.kwonlyargs]
+                got_named = all(any((k.arg == nm and is_name(k.value, nm)) for k in ic.keywords) or
+                                any(is_name(a_, nm) for a_ in ic.args) for nm in named)
+                fwd = got_va and got_kw and got_named
+        ctx.inst(rid, fn or (conv.module.relpath, 'Conversions'), 'default %s' % m, ok,
+                 "%s = %s(self.%s(...))" % (m, f, inner) if ok else
+                 "Conversions.%s is not %s(self.%s(*args, **kwargs))" % (m, f, inner))
+        if ok:
+            ctx.inst(rid, fn, 'options of default %s' % m, fwd,
+                     "every positional and keyword option is handed on" if fwd else
+                     "Conversions.%s does not hand all of its options on to self.%s: options given by keyword (deg=, lam=, "
+                     "pairs=) are silently ignored and the model is converted with the defaults" % (m, inner))
+
+
 def result_type_dispatch(ctx, rid):
     """R04.1: the conversion functions give the Matrix kind only for the exact Matrix type of the argument."""
     P = ctx.prog
@@ -155,21 +191,7 @@ def rules(ctx):
                  "%s does not compose %s...))" % (name, want))
 
     # ---------------------------------------------------------------- R04.3
-    conv = P.cls('Conversions')
-    dflt = {'to_qubo': ('quso_to_qubo', 'to_quso'), 'to_quso': ('qubo_to_quso', 'to_qubo'),
-            'to_pubo': ('puso_to_pubo', 'to_puso'), 'to_puso': ('pubo_to_puso', 'to_pubo')}
-    for m, (f, inner) in dflt.items():
-        fn = conv.methods.get(m)
-        ok = False
-        if fn is not None:
-            sn = R.self_name(fn)
-            rets = [n for n in walk_no_nested(strip_docstring(fn.node.body)) if isinstance(n, ast.Return)]
-            ok = len(rets) == 1 and isinstance(rets[0].value, ast.Call) and is_name(rets[0].value.func, f) and \
-                len(rets[0].value.args) == 1 and isinstance(rets[0].value.args[0], ast.Call) and \
-                src(rets[0].value.args[0].func) == '%s.%s' % (sn, inner)
-        ctx.inst('R04.3', fn or (conv.module.relpath, 'Conversions'), 'default %s' % m, ok,
-                 "%s = %s(self.%s(...))" % (m, f, inner) if ok else
-                 "Conversions.%s is not %s(self.%s(*args, **kwargs))" % (m, f, inner))
+    conversion_defaults(ctx, 'R04.3')
     ABSTRACT = {'Conversions': "interface only", 'BO': "abstract parent of the labelled models", 'Problem': "abstract parent"}
     for c in P.subclasses_of('Conversions'):
         if c.name in ABSTRACT:
@@ -330,6 +352,8 @@ def rules(ctx):
     # ---------------------------------------------------------------- R04.9
     from .C14 import registration_parity, refresh_order, who_may_write, inverse_pairs, G1
     registration_parity(ctx, 'R04.9')
+    from .C14 import coupled_group_instances
+    coupled_group_instances(ctx, 'R04.9')
     refresh_order(ctx, 'R04.9')
     who_may_write(ctx, 'R04.9', G1)
     inverse_pairs(ctx, 'R04.9')
